@@ -1156,8 +1156,24 @@ def c06_i(ctx):
     raises = ctx.stmts(si, ast.Raise)
 
     def raised_under(f, pats):
+        # the test that directly decides the raise (not one inherited from an earlier refusal
+        # that was passed): the test of the `if` the raise sits in
+        from .base import guard_equivalents
+        exf = ctx.ex(f)
         for r in ctx.stmts(f, ast.Raise):
-            for (t, pol, _) in ctx.guards(f, r):
+            p = getattr(r, '_parent', None)
+            if not isinstance(p, ast.If):
+                continue
+            pol0 = r in p.body
+            tn = cfg_of(f).by_stmt.get(id(p))
+            t0 = exf.term(p.test, tn)
+            cands = list(guard_equivalents(t0, pol0))
+            # atoms implied by a true conjunction
+            for (t, pol) in list(cands):
+                if t[0] == 'bool' and ((t[1] == 'and' and pol) or (t[1] == 'or' and not pol)):
+                    for item in t[2]:
+                        cands.extend(guard_equivalents(item, pol))
+            for (t, pol) in cands:
                 if pol and t[0] != 'bool' and match_any(t, pats) is not None:
                     return r
         return None
